@@ -211,15 +211,17 @@ def main():
         'axioms_used': sorted({ax for axs in thm_axioms.values() for ax in axs}),
         'generated_from_source': list(getattr(mod, 'GENERATORS', [])),
         'evaluations': rep.evaluations, 'distinct_nontrivial': len(rep.nontrivial),
-        'rule': ' | '.join(rep.rules) or getattr(mod, 'RULE', ''),
+        'rule': ' | '.join(str(r) for r in rep.rules) or str(getattr(mod, 'RULE', '')),
         'samples': rep.samples or ['(none)'],
         'input_distribution': dict(rep.dist), 'fragile': rep.fragile,
         'correspondence_disagreements': len(rep.disagreements),
         'clauses': getattr(mod, 'CLAUSES', {}),
         'notes': rep.notes,
     }
-    if rep.exhaustive is not None:
+    if isinstance(rep.exhaustive, bool):
         cov['exhaustive'] = rep.exhaustive
+    elif rep.exhaustive is not None:
+        cov['exhaustive_detail'] = rep.exhaustive
     if not a.no_lean:       # development runs without the Lean part never write evidence
         C.write_evidence(pid, a.tier, seed, cov, list(getattr(mod, 'ASSUMPTIONS', [])), time.time() - t0,
                          len(new) + (1 if (broken and not new) else 0))
